@@ -188,6 +188,12 @@ def word_args(thorough):
     grid = [(1, 0, 0), (2, 0, 0), (1, 1, 0), (1, 2, 0), (2, 2, 0), (1, 3, 0), (2, 3, 0), (3, 3, 0), (1, 0, 1), (1, 0, 2), (1, 0, 3),
             (3, 0, 0), (2, 4, 0), (1, 4, 0), (4, 4, 0), (1, 0, 4), (0, 0, 0), (2, 1, 0), (3, 2, 2)]
     excls = [None, "a", "b-"]
+    if not thorough:
+        sets = ["a", "ab", "a-", "b]", "a "]
+        bodies = [None, "a", "b1", "b "]
+        grid = [(1, 0, 0), (2, 0, 0), (1, 1, 0), (1, 2, 0), (2, 2, 0), (2, 3, 0), (3, 3, 0), (1, 0, 1), (1, 0, 2), (1, 0, 3), (2, 4, 0),
+                (0, 0, 0), (2, 1, 0)]
+        excls = [None, "a"]
     out = []
     for init in sets + [""]:
         for body in bodies:
@@ -271,7 +277,7 @@ def word_family(ctx):
         built[a] = w
         if w is None:
             continue
-        alpha = "".join(sorted(set((a[0] or "") + (a[1] or "") + "a1 -")))[:6]
+        alpha = "".join(sorted(set((a[0] or "") + (a[1] or "") + "a1 ")))[:5 if ctx.thorough else 4]
         for s in strings(alpha, n_real):
             for loc in range(len(s) + 1):
                 l, r = word_paths(w, s, loc)
@@ -295,7 +301,7 @@ def word_family(ctx):
                                   "Word%r (as_keyword) at %r[%d]: character loop gives %r, regex %r gives %r" % (a, s, loc, l, w.reString, r), rep)
                 ctx.case(("word", a, s, loc), nontriv, ok)
     # --- model vs implementation (a stratified part of the grid; everything in thorough)
-    margs = [a for i, a in enumerate(allargs) if ctx.thorough or i % 5 == 0 or a[0] == ""]
+    margs = [a for i, a in enumerate(allargs) if ctx.thorough or i % 3 == 0]
     alpha_m = "ab1] -"
     strs = strings(alpha_m[:5] if not ctx.thorough else alpha_m, n_model)
     pre = PRE + ("Definition strs := strings_upto %s %d.\n"
@@ -398,7 +404,7 @@ def oneof_lists(thorough):
             if list(p) not in out:
                 out.append(list(p))
     if not thorough:
-        out = [l for i, l in enumerate(out) if len(l) != 3 or i % 3 == 0]
+        out = [l for i, l in enumerate(out) if len(l) < 3 or (len(l) == 3 and i % 5 == 0) or (len(l) > 3 and i % 3 == 0)]
     return out
 
 
@@ -450,7 +456,7 @@ def oneof_family(ctx):
     # --- implementation oracle: use_regex on/off agree, result is a longest listed symbol
     strs_by_alpha = {}
     for syms in lists:
-        al = "".join(sorted(set("".join(syms) + "aB ")))[:6]
+        al = "".join(sorted(set("".join(syms) + "aB ")))[:6 if ctx.thorough else 4]
         if al not in strs_by_alpha:
             strs_by_alpha[al] = strings(al, n)
         strs = strs_by_alpha[al]
@@ -486,7 +492,7 @@ def oneof_family(ctx):
                                               syms, cl, s, loc, r1, r2), rep)
                         ctx.case(("oneof", tuple(syms), cl, kw, s, loc), r2 is not None, ok)
     # --- model vs implementation
-    mlists = [l for i, l in enumerate(lists) if ctx.thorough or len(l) != 3 or i % 4 == 0]
+    mlists = [l for i, l in enumerate(lists) if ctx.thorough or i % 2 == 0]
     al_m = "abAB.-"
     strs = strings(al_m, 2 if not ctx.thorough else 3)
     pre = PRE + ("Definition strs := strings_upto %s %d.\n"
@@ -524,8 +530,18 @@ def oneof_family(ctx):
             fl = re.I if cl else 0
             patterns.append((patt, fl))
             try:
-                if canon(coq_re_tree(mtree)) != canon(RA.to_tree(patt, fl)):
-                    ctx.broken("correspondence:oneof-pattern syms=%r caseless=%r as_keyword=%r pattern=%r model=%r" % (syms, cl, kw, patt, mtree))
+                # sre_parse factors common prefixes out of alternations, so compare the two ASTs by running them
+                # (python transcription of the Coq matcher; itself cross-checked against Coq in regex_family)
+                mt, pt = coq_re_tree(mtree), RA.to_tree(patt, fl)
+                if canon(mt) != canon(pt):
+                    for s in strs:
+                        for loc in range(len(s) + 1):
+                            if RA.py_match(mt, s, loc) != RA.py_match(pt, s, loc):
+                                ctx.broken("correspondence:oneof-pattern syms=%r caseless=%r as_keyword=%r pattern=%r model=%r differ on %r[%d]" % (
+                                    syms, cl, kw, patt, mtree, s, loc))
+                                break
+                else:
+                    ctx.stat("oneof_patterns_structurally_equal")
             except RA.Unsupported as e:
                 ctx.broken("correspondence:oneof-pattern-unsupported %r %s" % (patt, e))
         es = {(ur, kw): oneof_build(syms, cl, ur, kw) for ur in (True, False) for kw in (True, False)}
